@@ -8,9 +8,13 @@ def histories(nobj, length):
     ops = []
     for o in range(nobj):
         ops += [("enter_cb", o), ("enter_add", o), ("register", o), ("unregister", o)]
-    ops += [("enter_add2", 0), ("exit", None), ("get", None), ("get_explicit", 0), ("get_explicit", 1)]
+    ops += [("enter_add2", 0), ("exit", None), ("get", None), ("get_explicit", 0), ("get_explicit", 1), ("get_fail", None)]
     for n in range(1, length + 1):
         yield from itertools.product(ops, repeat=n)
+
+
+def _boom():
+    return 1 // 0
 
 
 def run_history(h):
@@ -87,6 +91,25 @@ def run_history(h):
                     if len(seen[i]) != want:
                         return f"callback {i} saw {len(seen[i])} pretask calls, expected {want}"
 
+            elif op == "get_fail":
+                # a scheduler call whose task raises: the exception reaches the caller, every active callback gets
+                # exactly one finish call with the failure flag, and the active set is what it was
+                act = set(Callback.active)
+                fin = []
+                probe = Callback(finish=lambda dsk, state, failed: fin.append(failed))
+                probe.register()
+                try:
+                    try:
+                        L.get_sync({"x": Task("x", _boom)}, "x")
+                        return "a failing task did not raise"
+                    except ZeroDivisionError:
+                        pass
+                    if fin != [True]:
+                        return f"finish callbacks of a failing call saw {fin}, expected [True]"
+                finally:
+                    Callback.active.discard(probe._callback)
+                if set(Callback.active) != act:
+                    return "a failing scheduler call changed the active set"
             elif op == "get_explicit":
                 # callbacks passed with callbacks=: only those are used, and the globally active set is left alone
                 for s_ in seen:
@@ -105,11 +128,11 @@ def run_history(h):
     return None
 
 
-def sweep(tier, seed=0):
+def sweep(tier, seed=0, length=None):
     import time
 
     t0 = time.time()
-    length = 4 if tier == "quick" else 6
+    length = length or (4 if tier == "quick" else 6)
     cases = 0
     fails = []
     sample = None
@@ -127,7 +150,7 @@ def sweep(tier, seed=0):
     return {
         "function": "dask/callbacks.py (real Callback/add_callbacks objects, nested histories)",
         "bounded": True,
-        "bound": {"callback_objects": 2, "history_length": length, "ops": "enter Callback / enter add_callbacks(1 or 2 cbs) / register / unregister / exit / get_sync / get_sync(callbacks=[cb])"},
+        "bound": {"callback_objects": 2, "history_length": length, "ops": "enter Callback / enter add_callbacks(1 or 2 cbs) / register / unregister / exit / get_sync / get_sync(callbacks=[cb]) / failing get_sync"},
         "cases": cases, "distinct_nontrivial": cases, "failures_found": len(fails), "wall_s": round(time.time() - t0, 2),
         "samples": [{"native_case": rtc._jsonable(sample)}], "failures": fails,
     }
